@@ -369,6 +369,94 @@ def r5(fx):
 
 
 
+@rule('C01', 'R6', 2, 'is_kanji accepts exactly sequences of valid Shift JIS double-byte characters in the two ISO ranges')
+def r6(fx):
+    fn = fx.fn('encoder', 'is_kanji')
+    it = Interp(max_steps=30_000_000)
+    f = make_callable(fx.forest, 'encoder', 'is_kanji', it)
+    full = fx.tier == 'thorough'
+    lows = range(256) if full else _pair_lows(fn.body)
+    bad = None
+    n = 0
+    for hi in range(256):
+        for lo in lows:
+            code = (hi << 8) | lo
+            n += 1
+            got = bool(f(bytes([hi, lo])))
+            want = kanji_ref(code) is not None
+            if got != want and bad is None:
+                bad = (hex(code), got, want)
+            # as second character after a valid one
+            if lo in (0x40, 0x7F, 0xFC) or hi in (0x81, 0x9F, 0xE0, 0xEB):
+                got2 = bool(f(bytes([0x88, 0x9F, hi, lo])))
+                if got2 != want and bad is None:
+                    bad = ('889f' + hex(code)[2:], got2, want)
+    yield ob(f'is_kanji on {n} byte pairs (partition of [0, 65535])', bad is None, fn,
+             got=f'{bad[0]}: {bad[1]}' if bad else 'valid characters only', want=f'{bad[2]}' if bad else 'valid characters only')
+    odd = [bool(f(b)) for b in (b'', b'\x88', b'\x88\x9f\x88')]
+    yield ob('is_kanji rejects empty and odd-length input', odd == [False, False, False], fn, got=odd, want=[False] * 3)
+
+
+class StrModel:
+    """A text whose encodability is a parameter (no characters involved)."""
+    _model = ('encode',)
+
+    def __init__(self, fails):
+        self.fails, self.tried = set(fails), []
+
+    def encode(self, encoding):
+        self.tried.append(encoding)
+        if encoding in self.fails:
+            raise UnicodeEncodeError(encoding, '', 0, 1, 'model')
+        return EncBytes(encoding)
+
+
+class EncBytes:
+    def __init__(self, encoding):
+        self.encoding = encoding
+
+    def __len__(self):
+        return 7
+
+    def __eq__(self, o):
+        return isinstance(o, EncBytes) and o.encoding == self.encoding
+
+
+@rule('C01', 'R7', 9, 'data_to_bytes: bytes unchanged; requested codec only; else ISO-8859-1, Shift JIS, UTF-8; reports the codec used')
+def r7(fx):
+    fn = fx.fn('encoder', 'data_to_bytes')
+    it = Interp()
+    genv = encoder_env(fx.forest, it, str=lambda x: x if isinstance(x, StrModel) else str(x))
+    f = FuncVal(fn, genv, it)
+    d, k = C(fx, 'DEFAULT_BYTE_ENCODING'), C(fx, 'KANJI_ENCODING')
+    for fails, want_enc, want_tried in (((), d, [d]), ((d,), k, [d, k]), ((d, k), 'utf-8', [d, k, 'utf-8'])):
+        s = StrModel(fails)
+        data, ln, enc = f(s, None)
+        yield ob(f'no encoding requested, not encodable in {list(fails)}', (enc, s.tried) == (want_enc, want_tried)
+                 and data == EncBytes(want_enc) and ln == 7, fn, got=(enc, s.tried), want=(want_enc, want_tried))
+    for req in ('utf-8', 'cp1252', 'shift_jis'):
+        s = StrModel(())
+        data, ln, enc = f(s, req)
+        yield ob(f'requested {req}: exactly that codec', (enc, s.tried) == (req, [req]) and data == EncBytes(req), fn,
+                 got=(enc, s.tried), want=(req, [req]))
+    s = StrModel(('ascii',))
+    try:
+        f(s, 'ascii')
+        got = 'returned'
+    except PyRaise as e:
+        got = e.name
+    yield ob('requested codec that cannot represent the text: error propagates (no fallback)', got in ('UnicodeEncodeError', 'UnicodeError')
+             and s.tried == ['ascii'], fn, got=(got, s.tried), want=('UnicodeEncodeError', ['ascii']))
+    for req, want_enc in ((None, d), ('utf-8', 'utf-8')):
+        raw = b'\x00\xff raw'
+        data, ln, enc = f(raw, req)
+        yield ob(f'bytes content (encoding={req}) is left unchanged', data is raw and ln == len(raw) and enc == want_enc, fn,
+                 got=(data, ln, enc), want=(raw, len(raw), want_enc))
+    data, ln, enc = f(12345, None)
+    yield ob('integers are converted through their decimal digits', (data, ln, enc) == (b'12345', 5, d), fn, got=(data, ln, enc),
+             want=(b'12345', 5, d))
+
+
 @rule('C01', 'R8', 3, '_encode emits SA header, then the segments in order, then terminator/padding; the final message is built from the same bit buffer')
 def r8(fx):
     from .models import trace_encode, SAModel
